@@ -108,4 +108,12 @@ static bool bytes_all_equal(const byte *p, unsigned n, byte v)
   g_allof_result = all;
   return all;
 }
+
+/* ---- drive numbers (driveselector.h: class SurfaceSelector { unsigned int d_; }) by value ------- */
+typedef unsigned int surface_t;
+#define VERIF_ABORT() __CPROVER_assert(0, "C07: abort() is unreachable")
+/* std::function<bool(drive_number)> occupied: the occupancy of every drive number (ghost, unbounded) */
+struct occ_fn { int id; };
+extern _Bool g_occ[__CPROVER_constant_infinity_uint];
+static bool occupied_call(struct occ_fn *f, surface_t d) { (void)f; return g_occ[d]; }
 #endif
